@@ -330,6 +330,53 @@ def check_table(ctx, case):
                 not close(obj.get_CpoR(T), allres[name][2][T], 1e-12 * max(1.0, abs(allres[name][2][T]))) for T in pts):
             ctx.fail('refused-update-changed-the-correlation', '[%s] after a refused update: tabulated points not reproduced %s, HoRT(T_ref)=%r (H_ref %r)'
                      % (name, bad[:3], obj.get_HoRT(T_ref), H))
+    # (h) the same correlation put together in two steps - some of the points first (at another reference temperature), then the
+    # rest with the reference values merged in - and (i) with an extra point that is deleted again: both are the correlation above
+    if 'group' in allres:
+        ref_vals = allres['group']
+        variants = {}
+        try:
+            if n >= 2:
+                half = n // 2
+                other_Tref = Ts[0] if Ts[0] != T_ref else Ts[-1]
+                recv = m['Group'](None, None, dict(zip(Ts[:half], Cps[:half])), other_Tref, rng)
+                donor = m['Group'](H, S, dict(zip(Ts[half:], Cps[half:])), T_ref, rng)
+                recv.update(donor)
+                variants['assembled-by-update'] = recv
+            extra_T = None
+            if rng[1] > Ts[-1]:
+                extra_T = 0.5 * (Ts[-1] + rng[1])
+            elif n >= 2:
+                extra_T = 0.5 * (Ts[0] + Ts[1]) if 0.5 * (Ts[0] + Ts[1]) not in Ts else None
+            if extra_T is not None and extra_T not in Ts:
+                tmp = m['Group'](H, S, dict(list(zip(Ts, Cps)) + [(extra_T, 7.5)]), T_ref, rng)
+                tmp.del_ND_Cp(extra_T)
+                variants['extra-point-deleted'] = tmp
+        except Exception as e:
+            ctx.fail('assembly-raises:%s' % type(e).__name__, 'two-step construction of a valid table raised %s: %s' % (type(e).__name__, e))
+            variants = {}
+        for vname, vobj in variants.items():
+            ctx.count()
+            ctx.event('variant:%s' % vname)
+            try:
+                for k, fn in enumerate((vobj.get_HoRT, vobj.get_SoR, vobj.get_CpoR)):
+                    for T in pts:
+                        x, y = ref_vals[k][T], fn(T)
+                        # (the reference values travel through another reference temperature: large integrals of the table cancel,
+                        # so the yardstick is the largest value the property takes anywhere on the grid, incl. that temperature)
+                        big = max([abs(ref_vals[k][t]) for t in pts] + [abs(fn(Ts[0])), abs(fn(Ts[-1])), 1.0])
+                        tolv = 1e-8 * big
+                        if k == 1:
+                            # S/R comes from numerical quadrature of Cp/(RT) (scipy quad): two routes integrate over different
+                            # intervals; same allowance as the integral clause (c)
+                            tolv = 1e-4 * max(abs(c) for c in Cps) * 3.0 * math.log(max(pts[-1], Ts[-1]) / min(pts[0], Ts[0])) + 1e-7
+                        if not close(x, y, tolv):
+                            ctx.fail('constructions-disagree:%s' % vname, '%s(%r): built at once %r, %s %r' % (('HoRT', 'SoR', 'CpoR')[k], T, x, vname, y))
+                            raise StopIteration
+            except StopIteration:
+                pass
+            except Exception as e:
+                ctx.fail('evaluation-raises:%s:%s' % (type(e).__name__, vname), '[%s] in-range evaluation raised %s: %s' % (vname, type(e).__name__, e))
     tref_out = not (Ts[0] < T_ref < Ts[-1])
     nontriv = n >= 2 and (total_straddle > 0 or tref_out or not is_sorted)
     ctx.case(nontrivial=nontriv, key=[Ts, Cps, T_ref, H, S, list(rng), order], evals=len(objs) * len(pts),
